@@ -60,6 +60,13 @@ META = {
         "assumptions": ["sort.Sort on BySegment is modelled as insertion sort: after flattening, ties under BySegment.Less are identical values, so every correct sort returns the same slice (theorem C09_order_independent proves uniqueness of the sorted permutation)",
                         "InvertCircular is tied by correspondence + oracle; its theorem is not yet stated"],
     },
+    "C18": {
+        "sections": ["Tables.complement", "Tables.transcribe", "Tables.match"],
+        "rule": "all 256 byte values through Complement/Transcribe (whole and byte by byte); every query x sequence byte pair over the 32 IUPAC letters (both cases) and 8 non-letters through Match; every sequence of length <=4 (thorough 6) x every query of length <=2 over small alphabets incl. '(' '*' and mixed case through Match and Search; random sequences (<=40, incl. newline and '-') x queries (<=4). Oracle: IUPAC base sets written independently in Go; brute-force soundness/completeness of Match and exactness of Search. Distinct case lines, all non-trivial.",
+        "assumptions": ["bytes < 128: bytes.ToLower and regexp operate on UTF-8, a raw byte >= 0x80 in a query is outside the modelled domain (stated in DESIGN.md)",
+                        "regexp.FindAllIndex is modelled as leftmost non-overlapping scanning of a fixed-width sequence of one-byte classes ('.' excludes newline); index/suffixarray as the set of all occurrences: both tied by correspondence only",
+                        "K3 (row k = [gtuy]) is pinned by TestMatch and listed as a known finding"],
+    },
 }
 
 
